@@ -321,6 +321,11 @@ def make_jobs(ctx):
         pairs += [[a, b, a] for a in alpha for b in alpha if a != b]
     for i in range(0, len(pairs), 400):
         jobs.append({'log': fixed, 'histories': pairs[i:i + 400]})
+    # structured 3-call family A ; partial invalidation B ; A on logs that interleave the types
+    aba = G.partial_invalidation_histories()
+    for lg in (G.interleaved_log(), fixed):
+        for i in range(0, len(aba), 300):
+            jobs.append({'log': lg, 'histories': aba[i:i + 300]})
     nlogs, per, L = (160, 120, 5) if ctx.thorough else (48, 50, 3)
     for i in range(nlogs):
         log = G.gen_log(r, late_source=(i % 8 == 7))
@@ -391,9 +396,9 @@ def run(ctx):
         ctx.sample({'log': [(m['t'], m['p1'], m['src']) for m in j['log']], 'history': [short(c) for c in j['histories'][0]],
                     'impl': [show_impl(o)[:200] for o in res[-1]['hist'][0]]})
     ctx.coverage['rule'] = ('corpus (minimised past failures) first; on the 10-message log of the library\'s own loader test every ordered pair%s over a 40-call alphabet '
-                            '(types x max_messages x numpy/keep_messages, alignment, require_p1_time, in-order); then %d generated logs (5-14 messages of 4 types, '
+                            '(types x max_messages x numpy/keep_messages, alignment, require_p1_time, in-order); the structured family A ; B ; A (A over a type set S with a maximum of either sign / numpy / alignment, B re-reading a proper subset of S with other parameters, so the second A meets a partially valid cache) on that log and on a 16-message log interleaving four types; then %d generated logs (5-14 messages of 4 types, '
                             'invalid P1 stamps, 1-2 source ids; every 8th log has 24-30 messages and a source id first seen after the reader\'s sampling window) x %d histories '
-                            'of 2..%d read() calls whose later calls are mostly one-argument mutations of earlier ones (so cache keys collide). Every call of every history is '
+                            'of 2..%d read() calls whose later calls are mostly one-argument mutations of earlier ones (so cache keys collide; 30%% of the histories of length >= 3 are random members of the A ; B ; A family). Every call of every history is '
                             'compared with the same call on a fresh loader (SPEC oracle), with the extracted MODEL (after the same history, and fresh) and its messages with the '
                             'extracted SPEC filter (first/last N in file order). A case = (log, history prefix); non-trivial = at least one earlier read.'
                             % (' and triple a;b;a' if ctx.thorough else '', (160 if ctx.thorough else 48), (120 if ctx.thorough else 50), (5 if ctx.thorough else 3)))
